@@ -46,7 +46,7 @@ func genericGuards(r *Run) {
 		r.CheckCondInventory(r.Prop+".K1", r.Prop+"_conds.json", spec.Scope, spec.MinFuncs/2)
 	}
 	if len(spec.SeqScope.Include) > 0 {
-		r.CheckCallSeq(r.Prop+".Q1", r.Prop+"_calls.json", spec.SeqScope, spec.MinSeq)
+		r.CheckCallSeq(r.Prop+".Q1", r.Prop+"_calls.json", spec.SeqScope, spec.MinSeq, r.Prop == "C11" || r.Prop == "C19")
 	}
 	if len(spec.StoreScope.Include) > 0 {
 		r.CheckStoreGuards(r.Prop+".V1", r.Prop+"_stores.json", spec.StoreScope, spec.MinStores)
